@@ -55,6 +55,7 @@ EXPECT = {
     'DSP': [('FixtureHarm::Value', 'Engine<FULL>')],
     'SW1': [('FixtureLint::Use', 'Cell(m,n)')],
     'N1': [('FixtureLint::Fold', 'lon->sincosd')],
+    'D3': [('FixtureLint::Newton', 'ssig/sig')],
     'OV1': [('FixtureLint::LengthOk', 'product@')],
     'X7r': [('FixtureShared::HalfFilled', 'alpha_')],
     'K7': [('FixtureRaster::probe', 'B1 filepos column')],
@@ -120,6 +121,9 @@ def run_controls(rules):
         elif r == 'N1':
             from .rules import lint
             res = lint.rule_N1(fx, None)[0]
+        elif r == 'D3':
+            from .rules import lint
+            res = lint.rule_D3(fx, None)[0]
         elif r == 'OV1':
             from .rules import lint
             res = lint.rule_OV1(fx, None)[0]
